@@ -287,3 +287,72 @@ func zzC05Disconnect() {
 	vAssert(tb, "C05.other-sessions-untouched")
 	vReach("end")
 }
+
+// ---------------------------------------------------------------- C05/C13/C18: ClientSession.Close and Client.disconnect
+
+func zzC05ClientClose() {
+	rec := &zzConnRec{}
+	zzCR = rec
+	onClose, kaCancelled, listenCancelled := 0, 0, 0
+	cs := &ClientSession{client: &Client{}, conn: &jsonrpc2.Connection{}, onClose: func() { onClose++ }}
+	hasKA, hasListen := vBool("keepalive"), vBool("listenStream")
+	if hasKA {
+		cs.keepaliveCancel = func() { kaCancelled++; rec.events = append(rec.events, "keepalive-cancel") }
+	}
+	if hasListen {
+		cs.listenCancel = func() { listenCancelled++; rec.events = append(rec.events, "listen-cancel") }
+	}
+	nsub := vChoice("resourceSubscriptions", 3)
+	subCancelled := []int{0, 0}
+	uris := []string{"file:///x", "file:///y"}
+	if nsub > 0 {
+		cs.resourceSubs = map[string]context.CancelFunc{}
+		for i := 0; i < nsub; i++ {
+			i := i
+			cs.resourceSubs[uris[i]] = func() { subCancelled[i]++; rec.events = append(rec.events, "sub-cancel") }
+		}
+	}
+	err := cs.Close()
+	vAssert(err == nil && rec.closes == 1, "C05.client.close-closes-the-connection")
+	vAssert(onClose == 1, "C05.client.onClose-runs")
+	vAssert(!hasKA || kaCancelled == 1, "C13.client.close-stops-keepalive")
+	vAssert(!hasListen || listenCancelled == 1, "C05.client.close-ends-the-listen-stream")
+	for i := 0; i < nsub; i++ {
+		vAssert(subCancelled[i] == 1, "C18.client.close-cancels-every-resource-subscription")
+	}
+	vAssert(len(cs.resourceSubs) == 0, "C18.client.subscriptions-of-closed-session-forgotten")
+	// whatever parks on this session is released before the connection drains (conn.Close waits for it)
+	sawClose := false
+	for _, e := range rec.events {
+		if e == "close" {
+			sawClose = true
+		} else {
+			vAssert(!sawClose, "C05.client.cancellations-precede-connection-close")
+		}
+	}
+	cs.Close()
+	vAssert(onClose == 1, "C05.client.onClose-runs-exactly-once")
+	vAssert(rec.closes == 2 || rec.closes == 1, "C05.client.second-close-harmless")
+	for i := 0; i < nsub; i++ {
+		vAssert(subCancelled[i] == 1, "C05.client.second-close-cancels-nothing-new")
+	}
+	vReach("end")
+}
+
+func zzC05ClientDisconnect() {
+	c := NewClient(&Implementation{Name: "c", Version: "v"}, nil)
+	a, b, d := &ClientSession{client: c}, &ClientSession{client: c}, &ClientSession{client: c}
+	switch vChoice("position", 3) {
+	case 0:
+		c.sessions = []*ClientSession{a, b, d}
+	case 1:
+		c.sessions = []*ClientSession{b, a, d}
+	case 2:
+		c.sessions = []*ClientSession{b, d, a}
+	}
+	c.disconnect(a)
+	vAssert(len(c.sessions) == 2 && c.sessions[0] == b && c.sessions[1] == d, "C05.client.session-removed-others-kept-in-order")
+	c.disconnect(a) // a second notice (Close and the reader racing) changes nothing
+	vAssert(len(c.sessions) == 2, "C05.client.disconnect-idempotent")
+	vReach("end")
+}
